@@ -361,7 +361,9 @@ void mmd_export_image_html(DString * out, const char * source, token * text, lin
 				store_asset(scratch, link->url);
 			}
 
-			printf("<img src=\"%s\"", link->url);
+			print_const("<img src=\"");
+			mmd_print_string_html(out, link->url, false, false);
+			print_const("\"");
 		}
 	} else {
 		print_const("<img src=\"\"");
@@ -388,7 +390,9 @@ void mmd_export_image_html(DString * out, const char * source, token * text, lin
 	}
 
 	if (link->title && link->title[0] != '\0') {
-		printf(" title=\"%s\"", link->title);
+		print_const(" title=\"");
+		mmd_print_string_html(out, link->title, false, false);
+		print_const("\"");
 	}
 
 	while (a) {
